@@ -189,6 +189,36 @@ func bigIntrinsics() map[string]intrinsic {
 		},
 		"(*math/big.Int).Quo": divLike(OSDiv),
 		"(*math/big.Int).Rem": divLike(OSRem),
+		// Euclidean modulus and division (results for y != 0: 0 <= m < |y|)
+		"(*math/big.Int).Mod": func(it *Interp, fn *ssa.Function, args []Value) Value {
+			rem := divLike(OSRem)
+			rem(it, fn, args)
+			tt := it.tt
+			r, rb := it.bigGet(args[0])
+			y, yb := it.bigGet(args[2])
+			neg := tt.Cmp(OSlt, r, zeroBig(it))
+			absY := tt.Ite(tt.Cmp(OSlt, y, zeroBig(it)), tt.Un(ONeg, y), y)
+			it.bigSet(args[0], tt.Ite(neg, tt.Bin(OAdd, r, absY), r), maxInt(rb, yb)+1)
+			return args[0]
+		},
+		"(*math/big.Int).Div": func(it *Interp, fn *ssa.Function, args []Value) Value {
+			tt := it.tt
+			x, _ := it.bigGet(args[1])
+			y, _ := it.bigGet(args[2])
+			// q = trunc(x/y); if x rem y < 0: q -= sign(y)
+			tmpQ := it.newBigCell()
+			divLike(OSDiv)(it, fn, []Value{tmpQ, args[1], args[2]})
+			tmpR := it.newBigCell()
+			divLike(OSRem)(it, fn, []Value{tmpR, args[1], args[2]})
+			q, qb := it.bigGet(tmpQ)
+			r, _ := it.bigGet(tmpR)
+			_ = x
+			one := tt.BigConst(bigW, big.NewInt(1))
+			sgn := tt.Ite(tt.Cmp(OSlt, y, zeroBig(it)), tt.Un(ONeg, one), one)
+			adj := tt.Ite(tt.Cmp(OSlt, r, zeroBig(it)), tt.Bin(OSub, q, sgn), q)
+			it.bigSet(args[0], adj, qb+1)
+			return args[0]
+		},
 		"(*math/big.Int).Lsh": func(it *Interp, fn *ssa.Function, args []Value) Value {
 			x, xb := it.bigGet(args[1])
 			cnt := it.tt.Zext(it.term(args[2], 64), bigW)
